@@ -208,6 +208,13 @@ def execute(plan, trace=False):
             if ['rw-data'] in cblog:
                 run.violate('C03/event-data-writable',
                             f"{label}: fsm_event_data could be modified by an action")
+            for e in cblog:
+                if e[0] == 'data-changed':
+                    run.violate('C03/event-data/changed-within-action',
+                                f"{label}: enter_{e[1]} read {e[2]} before and {e[3]} after its "
+                                "own chained request: an action must read the data of the event "
+                                "that caused it")
+                    break
             obs = fsmlib.normalise_observed([e for e in cblog if e != ['rw-data']])
             msg = fsmlib.compare_logs(canon(model.log), canon(obs))
             if msg:
